@@ -576,9 +576,89 @@ class Establish(_Base):
                 'violations': viol}
 
 
+class Construct(_Base):
+    """ioapi_base.from_arrays(...) with or without a caller-supplied TFLAG:
+    the constructed file and a ROW window of it are coherent (incl. the
+    unlimited TSTEP dimension)"""
+
+    def __init__(self, year, with_tflag, T=2):
+        self.year, self.with_tflag, self.T = year, with_tflag, T
+        self.name = 'construct[from_arrays,%d,T=%d,TFLAG=%s]' % (
+            year, T, with_tflag)
+        self.bounds = {'dims': (T, 2, 2, 2), 'TFLAG supplied': with_tflag}
+
+    def _make(self, IO, vals, npmod):
+        T = self.T
+        arr = np.arange(T * 8, dtype='f').reshape(T, 2, 2, 2)
+        kw = {'O3': arr, 'NO2': arr + 1}
+        if self.with_tflag:
+            tf = npmod.empty((T, 2, 2), dtype=object)
+            for t in range(T):
+                tf[t, :, 0] = vals['sdate']
+                tf[t, :, 1] = vals['stime'] + t * 10000
+            kw = dict(TFLAG=tf if npmod is not np else tf.astype('i'), **kw)
+        f = IO.from_arrays(fileattrs={
+            'SDATE': vals['sdate'], 'STIME': vals['stime'], 'TSTEP': 10000,
+            'VGLVLS': np.linspace(1, 0, 3).astype('f'), 'VGTOP': 5000.,
+            'XORIG': 0., 'YORIG': 0., 'XCELL': 1000., 'YCELL': 1000.}, **kw)
+        return f, f.sliceDimensions(ROW=slice(0, 1))
+
+    def sym(self, ctx, h):
+        sp = self.space()
+        IO = sp.twin('PseudoNetCDF.cmaqfiles._ioapi').ioapi_base
+        # the structure does not depend on the date: day 100, symbolic hour
+        # such that the supplied flags stay inside the start day
+        sd.YEAR_RANGE = (self.year - 1, self.year + 1)
+        sd.FORK_YEARS = True
+        H = ctx.int('t_H', 0, 23 - self.T)
+        vals = {'sdate': self.year * 1000 + 100, 'stime': H * 10000}
+        import sys
+        sys.setprofile(sp.profile())
+        try:
+            try:
+                f, w = self._make(IO, vals, np)
+            except Exception as ex:
+                h.candidate('raised:' + type(ex).__name__, repr(ex)[:200])
+                return
+        finally:
+            sys.setprofile(None)
+        for lab, e in coherence(f, True):
+            h.claim('constructed:' + lab, e)
+        for lab, e in coherence(w, True):
+            h.claim('window:' + lab, e)
+        h.observe('varlist', getattr(f, 'VAR-LIST', None))
+
+    def real(self, inputs):
+        import warnings
+        with warnings.catch_warnings():
+            warnings.simplefilter('ignore')
+            from PseudoNetCDF.cmaqfiles._ioapi import ioapi_base as IO
+        H = _g(inputs, 't_H')
+        vals = {'sdate': self.year * 1000 + 100,
+                'stime': (H if 0 <= H <= 23 - self.T else 0) * 10000}
+        viol = {}
+        try:
+            with warnings.catch_warnings():
+                warnings.simplefilter('ignore')
+                f, w = self._make(IO, vals, np)
+        except Exception as ex:
+            viol['raised:' + type(ex).__name__] = repr(ex)[:200]
+            return {'obs': {}, 'violations': viol}
+        for pre, g in (('constructed:', f), ('window:', w)):
+            for lab, e in coherence(g, False):
+                if not z3.is_true(z3.simplify(e)):
+                    viol[pre + lab] = 'incoherent: %s' % lab
+        return {'obs': {'varlist': getattr(f, 'VAR-LIST', None)},
+                'violations': viol}
+
+    any_violation_confirms = True
+
+
 def obligations(tier):
     obs = []
     years = (2004,) if tier == 'quick' else (2003, 2004)
+    for wt in (False, True):
+        obs.append(Construct(2004, wt))
     for yr in years:
         for name in OPS:
             if name == 'slice-TSTEP-list3':
